@@ -7,9 +7,10 @@ THEOREMS = ['C10.zp_add', 'C10.zp_sub', 'C10.zp_mul', 'C10.zp_conv', 'C10.zp_con
             'C10.zp_init_prime', 'C10.zp_init_rejects', 'C10.zpInit_small', 'C10.zp_inv', 'C10.zp_eq',
             'C10.multi_idem_one', 'C10.multi_idem_zero', 'C10.d24_witness',
             'ZpProto.mulLoop_spec', 'Zp2Proto.sub_add_cancel', 'GetValueProto.impl_violates',
-            'MultiField.sqMul_spec', 'MultiField.isPrime_iff', 'MultiField.mfInit_wf', 'MultiField.mfPid_spec', 'MultiField.mfPinv_spec']
-PARTIAL = ['C10_multi_partial: the partial identity of the multi-field classes is a theorem (mfPid_spec, for every field accepted by mfInit: mfInit_wf); the partial inverse is proved up to the extended-Euclid loop, '
-           'whose result enters mfPinv_spec as a hypothesis (the loop is compared with the code and decided on every explored input by the exact oracle of props/C10.py)']
+            'MultiField.sqMul_spec', 'MultiField.isPrime_iff', 'MultiField.mfInit_wf', 'MultiField.mfPid_spec', 'MultiField.mfPinv_spec',
+            'Egcd.egcdLoop_spec', 'Egcd.egcdLoop_bound', 'Egcd.egcdInv_spec', 'MultiField.coprime_div_gcd', 'MultiField.mfPinv_correct', 'Egcd.egcdLoop_terminates', 'Egcd.egcdInv_isSome', 'MultiField.mfPinv_total']
+PARTIAL = ['C10_multi_partial: partial identity and partial inverse of the multi-field classes are theorems for every field accepted by mfInit (mfPid_spec, mfPinv_correct, with the extended-Euclid loop proved: egcdInv_spec); '
+           'the fuel of the model of that loop is proved sufficient for moduli below 2^99 (mfPinv_total); for larger moduli of the GMP classes the result is compared with the code and decided by the exact oracle of props/C10.py']
 ASSUMPTIONS = ['GMP (mpz_gcd, mpz_invert, mpz_powm_ui, mpz_nextprime) behaves as documented',
                'static classes are exercised for the instantiated template parameters only (Zp: 2,3,5,7,13,31,251,32749,65521; ranges [2,3],[2,5],[3,11],[5,13],[2,23],[7,7])']
 
